@@ -360,9 +360,14 @@ class ODE:
         if not isinstance(__o, ODE):
             return False
 
+        def sorted_components(ode: ODE) -> list[BaseComponent]:
+            # The order of the components follows the order in the
+            # text and carries no meaning
+            return sorted(ode.components, key=lambda comp: comp.name)
+
         return (
             __o.comments == self.comments
-            and __o.components == self.components
+            and sorted_components(__o) == sorted_components(self)
             and __o.name == self.name
         )
 
